@@ -32,11 +32,11 @@ def colRoot (H : HashFn) (w : Nat) (sq : List Bytes) (i : Nat) : Option NsHash :
   | .ok r => some r
   | .error _ => none
 
-/-- "the square reproduces the DAH exactly": `w` row roots and `w` column roots, each the root of its axis -/
+/-- "the square reproduces the DAH exactly": `w` row roots and `w` column roots, the `i`-th being the root of
+    row / column `i` of the square -/
 def commits (H : HashFn) (w : Nat) (sq : List Bytes) (rows cols : List NsHash) : Bool :=
-  sq.length == w * w &&
-  rows == (List.range w).filterMap (rowRoot H w sq) && rows.length == w &&
-  cols == (List.range w).filterMap (colRoot H w sq) && cols.length == w
+  sq.length == w * w && rows.length == w && cols.length == w &&
+  (List.range w).all (fun i => rowRoot H w sq i == rows[i]? && colRoot H w sq i == cols[i]?)
 
 /-- first quadrant of a row-major square of width `w`, row-major -/
 def quadrant0 (w : Nat) (sq : List Bytes) : List Bytes :=
